@@ -1812,7 +1812,14 @@ class Emitter:
         if md is None:
             raise Abort('member call to unknown decl')
         if md.get('virtual') or md.get('pure'):
-            raise Abort('virtual call ' + md.get('name', ''))
+            # dynamic dispatch is not modelled. A virtual INTERFACE function that the unit declares @abstract is called as an
+            # abstract leaf (its contract speaks for whatever overrider runs); everything else is an extraction break
+            try:
+                vname = self.fn_cname(md)
+            except Exception:
+                vname = None
+            if vname is None or vname not in self.abstract:
+                raise Abort('virtual call ' + md.get('name', ''))
         obj = me['inner'][0]
         if md['kind'] == 'CXXDestructorDecl':
             rec = self.tu.class_of(md)
